@@ -111,6 +111,7 @@ def inferRaise (a : Acc) (t : Tid) (act : Act) : Option Err :=
     else if timed then some .timeout else none
   | .connCheck => if a.st.conn.up then none else some .io
   | .resume => some .boom
+  | .refuse => some .unsupported
   | _ => none
 
 /-- advance task `t` until its next action is observable as `want` (a predicate on actions),
@@ -186,6 +187,7 @@ def doDone (a : Acc) (t : Tid) (res : String) : Except String Acc := do
       | some e => "err:" ++ (match e with
           | .comm => "CommunicationError" | .timeout => "TimeoutError" | .io => "OSError"
           | .boom => "SeqBoom" | .assertion => "AssertionError" | .oserror => "OSError"
+          | .unsupported => "UnsupportedFrameTypeError"
           | .cancelled => "cancelled")
     if exp == res then pure a else throw s!"task {t} finished with {res}, model says {exp}"
 
